@@ -70,6 +70,15 @@ func payload(dir string, i int) string {
 // (simultaneous send / receive on the server's stream as well).
 func startServer(ctx context.Context, fails *failSink) (string, func(), error) {
 	srv := server.New(serverConfig())
+	// per-command policy hook that returns ONE shared policy object per command (what a
+	// daemon with a policy table does): the server must not let connections write into it
+	perCmd := map[int]*security.SecurityConfig{}
+	for _, cmd := range []int{cmdEcho} {
+		pol := serverConfig()
+		pol.SessionCache = srv.SecurityConfig.SessionCache
+		perCmd[cmd] = pol
+	}
+	srv.SecurityConfigForCommand = func(command int) *security.SecurityConfig { return perCmd[command] }
 	srv.Handle(cmdEcho, func(hctx context.Context, c *server.Conn) error {
 		in := message.NewMessageFromStream(c.Stream)
 		n, err := in.GetInt(hctx)
@@ -443,6 +452,39 @@ func Managers(seed int64, clients, iters int, sequential, yield bool) NetStats {
 	}
 	cw.Wait()
 	st.Resumed = atomic.LoadInt64(&encrypted) // for this phase: handshakes that ended on an encrypted stream
+	st.Fails = fails.fails
+	return st
+}
+
+// FreshHandshakes: many concurrent FRESH handshakes for one command (every
+// connection has its own client configuration and an empty cache, so none
+// resumes) against the server whose per-command policy hook returns one shared
+// object; each is followed by an encrypted echo.
+func FreshHandshakes(seed int64, clients, iters int, yield bool) NetStats {
+	var st NetStats
+	fails := &failSink{}
+	addr, stop, err := startServer(context.Background(), fails)
+	if err != nil {
+		st.Fails = []FuncFail{{"driver", err.Error()}}
+		return st
+	}
+	defer stop()
+	var cw sync.WaitGroup
+	for c := 0; c < clients; c++ {
+		cw.Add(1)
+		go func(c int) {
+			defer cw.Done()
+			for i := 0; i < iters; i++ {
+				cfg := sharedClientConfig(security.NewSessionCache())
+				cfg.PeerName = ""
+				oneExchange(addr, cfg, fmt.Sprintf("fresh-%d-%d-%d", seed, c, i), &st, fails)
+				if yield {
+					runtime.Gosched()
+				}
+			}
+		}(c)
+	}
+	cw.Wait()
 	st.Fails = fails.fails
 	return st
 }
